@@ -75,8 +75,9 @@ func parseClusterNodes(data string) (map[string]*instance, error) {
 		if inst.MasterID == "" {
 			continue
 		}
-		master := insts[inst.MasterID]
-		master.Replicas = append(master.Replicas, inst)
+		if master, ok := insts[inst.MasterID]; ok {
+			master.Replicas = append(master.Replicas, inst)
+		}
 		delete(insts, id)
 	}
 	return insts, nil
